@@ -95,6 +95,19 @@ NewEffect(sym, k, ns) ==
   /\ UNCHANGED <<todo_off, cur>>
 ProcNew(sym, k, ns) == NewGuard(sym, k, ns) /\ NewEffect(sym, k, ns)
 
+\* The guards above are those of the algorithm AS CODED (next un-closed state in index order, first
+\* candidate in insertion order): the bounded model runs them.  Pager's algorithm leaves both choices
+\* free, and none of the listed properties depends on them; the trace specification therefore accepts
+\* any member of the family: any un-closed state, any exact / weakly compatible candidate.
+PickGuardAny(i) == pending = {} /\ i \in Unclosed
+ExactGuardAny(sym, k, ns) ==
+  /\ <<sym, ns>> \in pending
+  /\ \E j \in ExactIdx(sym, ns) : k = Cands(sym)[j]
+MergeGuardAny(sym, k, ns) ==
+  /\ <<sym, ns>> \in pending
+  /\ ExactIdx(sym, ns) = {}
+  /\ \E j \in WeakIdx(sym, ns) : k = Cands(sym)[j]
+
 PagerDone == pending = {} /\ Unclosed = {}
 
 PagerNext ==
